@@ -2,7 +2,8 @@
 # usage: tools/roundg.sh <seed-id>...  — confirm and store a sub-agent's seed (collectseed.sh), remove its scratch worktree and
 # run the seed's own property's quick check against it (matrixwt.sh) — the first-sight result, before any change to the checks.
 for id in "$@"; do
-  ROUND=${ROUND:-seventh} /verif/tools/collectseed.sh $id > /root/collect_$id.out 2>&1
+  case $id in *-G) R=seventh;; *-H) R=eighth;; *) R=${ROUND:-later};; esac
+  ROUND=$R /verif/tools/collectseed.sh $id > /root/collect_$id.out 2>&1
   tail -2 /root/collect_$id.out
   if [ -d /verif/seeded/$id ]; then git -C /repo worktree remove --force /tmp/seedw/$id 2>/dev/null; MATRIX_J=${MATRIX_J:-6} /verif/tools/matrixwt.sh quick $id 2>&1 | tail -2; fi
 done
